@@ -10,7 +10,7 @@ import corr  # noqa
 import kickcommon as K  # noqa
 from lib import f32, f2h  # noqa
 
-MODULES = ["InovesaModel.Props.C01", "InovesaModel.Props.C01FP", "InovesaModel.Props.Whole", "InovesaModel.Props.TieKick"]
+MODULES = ["InovesaModel.Props.C01", "InovesaModel.Props.C01FP", "InovesaModel.Props.Whole", "InovesaModel.Props.TieKick", "InovesaModel.Props.TieFPApply"]
 LEVEL = "proof"
 U = 2.0 ** -24
 
